@@ -180,6 +180,7 @@ def res_cli(run, case, rng, work):
     dup = bool(rng.random() < .1) and n > 1 and not use_filenames and not merge
     # a statistic that is exactly 0.0 in every result of the call (e.g. min after origin alignment)
     zero_keys = [STAT_KEYS[rng.integers(len(STAT_KEYS))]] if rng.random() < .2 else []
+    name_class = ["plain", "plain", "plain", "plain", "brackets", "odd"][rng.integers(6)]
     for i in range(n):
         if rng.random() < .25 and not zero_keys:
             # a real evo_ape archive
@@ -202,6 +203,12 @@ def res_cli(run, case, rng, work):
             for zk in zero_keys:
                 r.stats[zk] = 0.0
             p = os.path.join(work, "gen%d.zip" % i)
+            if name_class == "brackets":
+                # a legal file name that is also a glob pattern matching a sibling (not listed) file
+                file_interface.save_res_file(p, make_result(rng, STAT_KEYS, ["error_array"], lengths, 1, "decoy_%d.txt" % i))
+                p = os.path.join(work, "gen[%d].zip" % i)
+            elif name_class == "odd":
+                p = os.path.join(work, ["gen %d ü.zip", "gen*%d.zip", "gen?%d.zip"][i % 3] % i)
             file_interface.save_res_file(p, r)
             files.append(p)
             stored.append(C01.read_result_zip(p))
